@@ -368,6 +368,14 @@ func c08Run(c *core.Ctx) {
 			run(gen.Render(toks, func(int) string { return "\n  " }, nil), d*10+1, nil, "")
 		})
 	}
+	// (3b) scale family (long lines: multi-digit VLQ columns; many names; many lines)
+	for i, sp := range gen.Scale(c.Thorough()) {
+		if !c.Mine(int64(i)) || c.Tick() {
+			continue
+		}
+		c.Inc("scale_programs")
+		run(sp.Src, 1000+len(sp.Src), nil, "")
+	}
 	// (4) multi-line literals, re-quoted strings and non-ASCII text followed by more tokens
 	for _, lit := range []string{"`l1\n  l2\nl3`", "`\n`", "'say \"hi\"'", "\"a\\\nb\"", "`a\\`b`", "'é'", "\"😀\"", "`é\n😀`", "'\\x41'"} {
 		for _, tmpl := range []string{"x = %s + y;", "f(%s, a, b);\nlet z = a;", "if (a) {\n  g(%s); h(b)\n}\nw = 1", "x = [%s, %s, k];", "// é\nx = %s; y = 2"} {
